@@ -20,9 +20,15 @@ def code_lines(path):
     lines = open(path).read().split('\n')
     skip_next = False
     depth_skip = None
-    in_tests = False
+    in_block = False
     for i, l in enumerate(lines):
         s = l.strip()
+        if in_block:
+            if '*/' in s: in_block = False
+            continue
+        if s.startswith('/*'):
+            if '*/' not in s: in_block = True
+            continue
         if 'cfg(feature = "verif")' in s or "cfg(feature = \"verif\")" in s:
             skip_next = True
             continue
@@ -72,7 +78,6 @@ SUBS = [
     (r'\.saturating_sub\(1\)', '.saturating_sub(0)'),
     (r'\.get_or_insert_with\(', '.insert('),
     (r'\btry_insert\(', 'insert('),
-    (r'\.or_default\(\)', '.or_insert_with(Default::default)'),
 ]
 
 CALL_STMT = re.compile(r'^\s*[a-zA-Z_][\w\.:<>]*(\(.*\))?(\.[a-zA-Z_]\w*(::<[^>]*>)?\(.*\))*;\s*$')
@@ -199,10 +204,11 @@ def main():
         done = set()
         rp = '%s/results_%d.jsonl' % (ROOT, k)
         if os.path.exists(rp):
-            for l in open(rp): done.add(json.loads(l)['id'])
+            for l in open(rp):
+                r = json.loads(l); done.add((r['file'], r['line'] - 1, r['new']))
         with open(rp, 'a') as f:
             for m in mine:
-                if m['id'] in done: continue
+                if (m['file'], m['line'], m['new'].strip()) in done: continue
                 r = test_mutant(w, m, reduced, full)
                 f.write(json.dumps(r) + '\n'); f.flush()
     elif cmd == 'report':
